@@ -313,3 +313,65 @@ Proof.
     - exact Hf. }
   intros acc4 v4. cbn [stream_group run_rel]. reflexivity.
 Qed.
+
+(* ---- NewRegisterApi ---- *)
+
+Definition connect_rel (out : dout (option apiobj * gerr) * ast) (m : connect_result * vdstate)
+           (hist : list (reg * gvalue)) (cn : option nat) : Prop :=
+  match fst m with
+  | Connected id rl => out = (DVal (Some (mkApi id rl), None), mkA (mkD (snd m) false) hist cn)
+  | ConnectFailed e => out = (DVal (None, Some e), mkA (mkD (snd m) false) hist cn)
+  | ConnectPanic => fst out = DPanic \/ fst out = DFuel
+  end.
+
+Lemma get_device_id_range c idle v id v1 : get_device_id c idle v = (Ok (VNum id), v1) -> 0 <= id < 65536.
+Proof.
+  unfold get_device_id, typed. destruct (ve_command c idle 4 0 v) as [r s1]. cbn [map_res fst snd].
+  destruct r as [raw|e| |]; intros E; try discriminate.
+  destruct raw as [|lo [|hi rest]]; try discriminate.
+  apply (f_equal fst) in E. cbn [fst snd map_res] in E.
+  assert (H2 : bz lo + 256 * bz hi = id) by congruence.
+  pose proof (bz_range lo). pose proof (bz_range hi). lia.
+Qed.
+
+(* a fresh driver has never sent: the clock flag is true *)
+Theorem go_NewRegisterApi_refines c v hist cn :
+  connect_rel (go_NewRegisterApi tt c (mkA (mkD v true) hist cn)) (connect c v) hist cn.
+Proof.
+  unfold connect, connect_rel.
+  destruct (go_NewRegisterApi tt c (mkA (mkD v true) hist cn)) as [og sa] eqn:EG.
+  unfold go_NewRegisterApi in EG. cbv zeta in EG. unfold bind at 1 in EG.
+  change (p_new_vedirect (mkA (mkD v true) hist cn)) with (DVal (tt, @None err), mkA (mkD v true) hist cn) in EG.
+  cbv iota beta in EG. cbn [gerr_isnil negb] in EG. unfold bind at 1 in EG.
+  pose proof (go_Ping_refines c v true) as P. unfold call_rel, ping_out in P.
+  unfold lift at 1 in EG. cbn [a_d a_out a_cancel] in EG.
+  destruct (go_Ping c (mkD v true)) as [op sp]. cbn [fst snd] in P.
+  destruct (ping c true v) as [rp v1]. cbn [fst snd] in *.
+  destruct rp as [x|e| |].
+  - destruct P as (a & Ea & _ & ->). destruct a. destruct op as [ge| |]; try discriminate. injection Ea as ->.
+    cbn [gerr_isnil negb] in EG. unfold bind at 1 in EG.
+    pose proof (go_GetDeviceId_refines c v1 false) as G. unfold call_rel in G.
+    pose proof (get_device_id_range c false v1) as Rg.
+    unfold lift at 1 in EG. cbn [a_d a_out a_cancel] in EG.
+    destruct (go_GetDeviceId c (mkD v1 false)) as [og2 sg]. cbn [fst snd] in G.
+    destruct (get_device_id c false v1) as [rg v2]. cbn [fst snd] in *.
+    destruct rg as [[|b|id]|e| |].
+    + destruct G as (a & -> & Ev & _). discriminate.
+    + destruct G as (a & -> & Ev & _). discriminate.
+    + destruct G as (a & -> & Ev & ->). injection Ev as <-. cbn [gerr_isnil negb] in EG.
+      rewrite (wrapU_small 16 id) in EG by (change (2 ^ 16) with 65536; eapply Rg; reflexivity).
+      cbn [ao_product ao_registers] in EG. unfold g_product_exists in EG.
+      destruct (p_exists (obs_product id)); cbn [negb] in EG.
+      * unfold g_reglist_by_product in EG. destruct (obs_reglist id) as [e rl]. cbn [ao_product] in EG.
+        destruct (e =? 0); cbn [gerr_isnil negb] in EG.
+        -- injection EG as <- <-. cbn [fst snd]. reflexivity.
+        -- injection EG as <- <-. cbn [fst snd]. reflexivity.
+      * injection EG as <- <-. cbn [fst snd]. reflexivity.
+    + destruct G as (a & -> & ->). cbn [gerr_isnil negb] in EG. injection EG as <- <-. cbn [fst snd]. reflexivity.
+    + subst og2. injection EG as <- _. cbn [fst]. left. reflexivity.
+    + subst og2. injection EG as <- _. cbn [fst]. right. reflexivity.
+  - destruct P as (a & Ea & ->). destruct a. destruct op as [ge| |]; try discriminate. injection Ea as ->.
+    cbn [gerr_isnil negb] in EG. injection EG as <- <-. cbn [fst snd]. reflexivity.
+  - destruct op as [ge| |]; try discriminate. injection EG as <- _. cbn [fst]. left. reflexivity.
+  - destruct op as [ge| |]; try discriminate. injection EG as <- _. cbn [fst]. right. reflexivity.
+Qed.
